@@ -120,8 +120,10 @@ def _src(w, name, sd, lens_all, dims_all):
     from flodym import FlodymArray, DimensionSet
 
     shape = tuple(dims_all[l].len for l in sd)
+    from svx.configs import relayout
+
     S = w.arr(name, shape)
-    return FlodymArray(dims=DimensionSet(dim_list=[dims_all[l] for l in sd]), values=S.copy()), S
+    return FlodymArray(dims=DimensionSet(dim_list=[dims_all[l] for l in sd]), values=relayout(S.copy(), (len(name) + len(sd)) % 3)), S
 
 
 def _expected_region(w, sel, td, lens, S, sd, dims_all):
@@ -161,7 +163,10 @@ def run(cfg, w):
     dims_all = {l: make_dim(l, lens.get(l, 2)) for l in "abcde"}
     shape = tuple(lens[l] for l in td)
     T = w.arr("t", shape)
-    t = FlodymArray(dims=make_dimset(td, lens, dims_all), values=T.copy(), name="target")
+    from svx.configs import relayout
+
+    lay = sum(map(ord, cfg["key"])) % 3
+    t = FlodymArray(dims=make_dimset(td, lens, dims_all), values=relayout(T.copy(), lay), name="target")
     h = cfg["h"]
     if h == "assign_fa":
         sel = _sel(cfg["sel"])
